@@ -40,6 +40,7 @@ struct W_rec_s { uint8_t comp; uint16_t tag; uint32_t pos; uint8_t vlen; uint8_t
 static struct W_rec_s W_rec[RMAX]; static int W_nrec, W_rec_overflow;
 static uint8_t W_last_val[VMAXB]; static uint8_t W_last_len; static int W_creates, W_adds;
 static int W_nel, W_el_closed, W_grp_open, W_msg_created, W_pool_exhausted;
+static int W_setup_done, W_mk_calls;
 static uint32_t W_sum, W_sum_calls, W_sum_len; static uint32_t W_exc_arg;
 static int W_comp_of(void *p)
 {
@@ -82,8 +83,14 @@ uint32_t st_calc_chksum(void *from, uint64_t sz, uint32_t off, uint32_t len) { W
 /* cut point: std::function<Message*(bool)>::operator() := header / trailer / body object of the world, by functor identity */
 void *st_msg_create(void *fn, uint8_t deep)
 {
-  if (fn == (void*)vf_ctx_mk_hdr(&W_ctx)) return &W_hdr;
-  if (fn == (void*)vf_ctx_mk_trl(&W_ctx)) return &W_trl;
+  /* decided by call order, not by comparing functor addresses (a pointer comparison the symbolic executor cannot fold would make the
+     returned object - and with it every later access - a three-way case split); the identity is asserted instead */
+  if (!W_setup_done) {
+    W_mk_calls++;
+    if (W_mk_calls == 1) { __CPROVER_assert(fn == (void*)vf_ctx_mk_hdr(&W_ctx), "first creator call of Message's constructor is _mk_hdr"); return &W_hdr; }
+    __CPROVER_assert(W_mk_calls == 2 && fn == (void*)vf_ctx_mk_trl(&W_ctx), "second creator call of Message's constructor is _mk_trl"); return &W_trl;
+  }
+  __CPROVER_assert(fn != (void*)vf_ctx_mk_hdr(&W_ctx) && fn != (void*)vf_ctx_mk_trl(&W_ctx), "factory creates through the message table entry");
   W_msg_created++; return &W_msg;
 }
 #ifdef NOGROUP
@@ -97,6 +104,14 @@ void st_fmt_str(void *e, void *msg, void *what) { }
 void st_fmt_str_s(void *e, void *msg, void *what, void *msg2, void *what2) { }
 void st_fmt_s(void *e, void *msg, void *what) { }
 
+/* cut points: constructors of the decoder's exception classes (they only format the reason text) := remember the numeric argument;
+   the type of the thrown object (typeinfo passed to __cxa_throw by the real throw site) is what the harness classifies */
+void st_exc_u(void *e, uint32_t what) { W_exc_arg = what; }
+void st_exc_pp(void *e, void *a, void *b) { }
+void st_exc_pb(void *e, void *a, uint8_t b) { }
+void st_exc_p(void *e, void *a) { }
+void st_exc_up(void *e, uint32_t what, void *b) { W_exc_arg = what; }
+
 static void W_setup(void)
 {
   vf_ctx_setup(&W_ctx, W_mt);
@@ -109,6 +124,7 @@ static void W_setup(void)
   vf_mk_group(&W_grp, 384);
   for (int e = 0; e < NEL; e++) vf_mk_element(&W_el[e], &W_ctx, W_grp_arr[e], &W_grp_h);
   __CPROVER_assert(!__vf_exc_pending, "world setup raised no exception");
+  W_setup_done = 1;
 }
 static void W_set_input(uint32_t n) { VS_P(&W_from) = W_buf; VS_N(&W_from) = n; }
 /* exception classes of the decoder, by typeinfo identity (shim vf_ti) */
